@@ -8,9 +8,10 @@ from present import Presenter
 MODEL_TARGETS = ["model/Ser.vo", "spec/Denote.vo", "model/SerHistory.vo"]
 COQ_TARGETS = ["props/C13.vo", "proofs/SerDispatchTie.vo"]
 THEOREMS = [("C13", ["C13_perm", "C13_perm_variant", "C13_perm_map", "C13_schema_order", "C13_nopanic", "C13_perm_nested", "C13_perm_split", "C13_perm_union_named", "C13_perm_union_typed", "C13_duplicate_field",
-                     "C13_sink_schedule_independent", "C13_sink_any_schedule", "C13_sink_fixed_slice", "C13_write_once_defect_refuted"]),
+                     "C13_sink_schedule_independent", "C13_sink_any_schedule", "C13_sink_fixed_slice", "C13_write_once_defect_refuted",
+                     "C13_fixed_slice_whole_serializer", "C13_fixed_slice_ok_iff", "C13_fixed_slice_no_new_panic"]),
             ("SerDispatchTie", ["tie_ser_bool", "tie_ser_integer", "tie_ser_f32", "tie_ser_f64", "tie_ser_str", "tie_ser_bytes", "tie_ser_unit", "tie_ser_unit_struct", "tie_ser_unit_variant", "tie_ser_seq", "tie_ser_map", "tie_ser_forward_names", "tie_ser_simple_forwards", "ser_int_leaf_is_rows", "ser_str_leaf_is_rows", "ser_bytes_leaf_is_rows"])]
-PROOF_FILES = ["proofs/RecordProofs.v", "props/C13.v", "proofs/RecordPermProofs.v", "proofs/SerDispatchTie.v", "proofs/SinkWriteProofs.v"]
+PROOF_FILES = ["proofs/RecordProofs.v", "props/C13.v", "proofs/RecordPermProofs.v", "proofs/SerDispatchTie.v", "proofs/SinkWriteProofs.v", "proofs/SerBudgetProofs.v"]
 TRUSTED_BASE = [
     "model/SinkWrite.v transcribes std::io::Write::write_all (library/std/src/io/mod.rs: loop, Ok(0) => WriteZero, Interrupted => retry) and impl Write for &mut [u8] over the answer schedules of model/VectoredWrite.v; it is std's code, not the crate's, and is trusted as transcribed; the crate side is exercised through the harness sinks (sink short K) / (sink fixed N)",
     "dispatch tie: translators/gen_ser_dispatch.py (+ rustmatch.py) reads the arms of the serialize_* methods of DatumSerializer into gen/GenSerDispatch.v; proofs/SerDispatchTie.v ties them to the rows of model/Ser.v (leaf functions proved to be the interpretation of the rows on non-union nodes; 2 arms unclassified: the Decimal arm of serialize_integer and the Union arm of serialize_unit_variant)",
